@@ -28,18 +28,26 @@ Inductive stmt :=
 | Alias (x y : var)                     (* x may share memory with / contain / be contained in y *)
 | Mutate (x : var)                      (* a write THROUGH x *)
 | Call (x : var) (f : fname) (args : list var)
-| GlobalRng                             (* a draw not derived from the rng/seed parameter *)
+| GlobalRng                             (* a draw from numpy's module-level generator / an unseeded one *)
+| Draw (r : var)                        (* a draw from the generator object held by r *)
 | StateRead (g : sname) (r : var)       (* slot g of the object held by r is read *)
 | StateWrite (g : sname) (r : var).     (* slot g of the object held by r is rebound *)
 
 (** [f_params]: protected roots (positional parameters, state slots that may hold caller
     memory, the module-constants root).  [f_owned]: unprotected roots (the receiver object
-    and its private state slots).  [f_formals]: for each argument POSITION of a call, the
-    roots that position stands for (position 0 of a method = receiver + all its slots). *)
+    and its private state slots).  [f_grng]: the root standing for numpy's global generator
+    (what [check_random_state None] returns; passed by the translator for an omitted or
+    [None] rng argument).  [f_formals]: for each argument POSITION of a call, the
+    roots that position stands for (position 0 of a method = receiver + all its slots).
+    [f_slots]: the PRIVATE slots of the receiver (slot name, root variable): a write through
+    the content of such a slot is reported to callers as an update of that slot
+    ([s_sw]) and not as a write through the argument ([s_mut]). *)
 Record func := mkFunc {
   f_params : list var;
   f_owned : list var;
+  f_grng : var;
   f_formals : list (list var);
+  f_slots : list (sname * var);
   f_body : list stmt;
   f_ret : var }.
 
@@ -48,6 +56,7 @@ Record summary := mkSum {
   s_ret : list nat;                (* argument positions the result may share with *)
   s_lnk : list (nat * nat);        (* argument positions that may become linked *)
   s_rng : bool;                    (* draws from a global / unseeded generator *)
+  s_drw : list nat;                (* argument positions whose generator object may be drawn from *)
   s_sw : list (sname * nat);       (* slot g of (an object reachable from) position i is rebound *)
   s_sr : list (sname * nat) }.
 
@@ -72,6 +81,7 @@ Definition expand_call (sm : summary) (x : var) (args : list var) : list stmt :=
   ++ flat_map (fun ij => flat_map (fun a => map (Alias a) (argn args (snd ij)))
                                   (argn args (fst ij))) (s_lnk sm)
   ++ (if s_rng sm then [GlobalRng] else [])
+  ++ flat_map (fun i => map Draw (argn args i)) (s_drw sm)
   ++ flat_map (fun gi => map (StateWrite (fst gi)) (argn args (snd gi))) (s_sw sm)
   ++ flat_map (fun gi => map (StateRead (fst gi)) (argn args (snd gi))) (s_sr sm).
 
@@ -113,6 +123,7 @@ Definition near (s : state) (x : var) (c : cell) : Prop :=
 Inductive event :=
 | EWrite (c : cell)
 | ERng
+| EDraw (c : cell)
 | ESRead (g : sname) (c : cell)
 | ESWrite (g : sname) (c : cell).
 
@@ -138,6 +149,7 @@ Inductive step (s : state) : stmt -> option event -> state -> Prop :=
     step s (Alias x y) None s'
 | step_mutate : forall x c, near s x c -> step s (Mutate x) (Some (EWrite c)) s
 | step_rng : step s GlobalRng (Some ERng) s
+| step_draw : forall r c, near s r c -> step s (Draw r) (Some (EDraw c)) s
 | step_sread : forall g r c, near s r c -> step s (StateRead g r) (Some (ESRead g c)) s
 | step_swrite : forall g r c, near s r c -> step s (StateWrite g r) (Some (ESWrite g c)) s.
 
@@ -151,22 +163,31 @@ Inductive run (P : list stmt) : state -> list event -> state -> Prop :=
 | run_cons : forall s st oe s' tr s'',
     In st P -> step s st oe s' -> run P s' tr s'' -> run P s (ev_list oe ++ tr) s''.
 
-(** Entry condition: only roots are bound; everything is allocated; the unprotected
-    roots [free] share no memory with the protected roots [prot]. *)
-Definition entry_ok (prot free : list var) (s0 : state) : Prop :=
+(** Entry condition: only roots are bound; everything bound is allocated; the receiver's
+    private roots [owned] share no memory with the protected roots [params]; the global
+    generator [g] shares no memory with any other root. *)
+Definition sep (s0 : state) (A B : list var) : Prop :=
+  forall a b c d, In a A -> In b B -> env s0 a c -> env s0 b d -> ~ conn s0 c d.
+
+Definition entry_ok (params owned : list var) (g : var) (s0 : state) : Prop :=
   (forall x c, env s0 x c -> alloc s0 c) /\
   (forall a b, edges s0 a b -> alloc s0 a /\ alloc s0 b) /\
-  (forall x c, env s0 x c -> In x prot \/ In x free) /\
-  (forall g p c d, In g free -> In p prot -> env s0 g c -> env s0 p d -> ~ conn s0 c d).
+  (forall x c, env s0 x c -> In x params \/ In x owned \/ x = g) /\
+  sep s0 owned params /\
+  sep s0 [g] (params ++ owned).
 
-(** cells reachable from a protected root at entry *)
-Definition protected (prot : list var) (s0 : state) (c : cell) : Prop :=
-  exists p d, In p prot /\ env s0 p d /\ conn s0 d c.
+(** cells reachable from one of the roots [R] at entry *)
+Definition protected (R : list var) (s0 : state) (c : cell) : Prop :=
+  exists p d, In p R /\ env s0 p d /\ conn s0 d c.
 
-Definition safe_event (wl rd : list sname) (Prot : cell -> Prop) (e : event) : Prop :=
+(** [Prot]: cells of the caller's arguments / module constants; [GProt]: the global
+    generator.  [allow_g]: the function is a documented user of the global generator. *)
+Definition safe_event (wl rd : list sname) (allow_g : bool)
+           (Prot GProt : cell -> Prop) (e : event) : Prop :=
   match e with
   | EWrite c => ~ Prot c
   | ERng => False
+  | EDraw c => allow_g = true \/ ~ GProt c
   | ESWrite g c => In g wl \/ ~ Prot c
   | ESRead g c => In g rd \/ ~ Prot c
   end.
@@ -194,36 +215,64 @@ Fixpoint grow (fuel : nat) (E : list (var * var)) (T : list var) : list var :=
            end
   end.
 
-(** undirected may-share closure of [seeds]; every productive round adds a variable *)
+(** undirected may-share closure of [seeds]; every productive round adds a variable.
+    (Soundness does not rely on [grow] reaching the fixpoint: [closed] is re-checked.) *)
 Definition taint (E : list (var * var)) (seeds : list var) : list var :=
   grow (2 * length E + 1) E seeds.
 
 Definition closed (E : list (var * var)) (T : list var) : bool :=
   forallb (fun xy => Bool.eqb (mem (fst xy) T) (mem (snd xy) T)) E.
 
-Definition stmt_ok (wl rd : list sname) (T : list var) (st : stmt) : bool :=
+Definition stmt_ok (wl rd : list sname) (allow_g : bool) (T Tg : list var) (st : stmt) : bool :=
   match st with
   | Fresh _ | Alias _ _ => true
   | Mutate x => negb (mem x T)
   | Call _ _ _ => false
   | GlobalRng => false
+  | Draw r => allow_g || negb (mem r Tg)
   | StateWrite g r => mem g wl || negb (mem r T)
   | StateRead g r => mem g rd || negb (mem r T)
   end.
 
 (** [wl]: state slots that may be rebound/updated on objects received from the caller
     (the documented exception: the estimate state of sensor models handed to a filter);
-    [rd]: state slots that may be read on objects received from the caller. *)
-Definition check_fun (wl rd : list sname) (S : summaries) (f : func) : bool :=
+    [rd]: state slots that may be read on objects received from the caller;
+    [allow_g]: documented user of numpy's global generator. *)
+Definition check_fun (wl rd : list sname) (allow_g : bool) (S : summaries) (f : func) : bool :=
   match prims S (f_body f) with
   | None => false
   | Some P =>
       let E := edge_list P in
       let T := taint E (f_params f) in
+      let Tg := taint E [f_grng f] in
       closed E T
       && forallb (fun p => mem p T) (f_params f)
       && forallb (fun g => negb (mem g T)) (f_owned f)
-      && forallb (stmt_ok wl rd T) P
+      && closed E Tg
+      && mem (f_grng f) Tg
+      && (allow_g || forallb (fun p => negb (mem p Tg)) (f_params f ++ f_owned f))
+      && forallb (stmt_ok wl rd allow_g T Tg) P
+  end.
+
+(** every generator drawn from is derived from something the caller supplied (a parameter
+    or the receiver), never from module-level state or from the global generator *)
+Definition seed_plumbed (S : summaries) (f : func) : bool :=
+  match prims S (f_body f) with
+  | None => false
+  | Some P =>
+      let E := edge_list P in
+      let Tc := taint E (f_owned f ++ concat (f_formals f)) in
+      let Tg := taint E [f_grng f] in
+      forallb (fun st => match st with
+                         | Draw r => mem r Tc && negb (mem r Tg)
+                         | GlobalRng => false
+                         | _ => true end) P
+  end.
+
+Definition draws (S : summaries) (f : func) : bool :=
+  match prims S (f_body f) with
+  | None => true
+  | Some P => existsb (fun st => match st with Draw _ | GlobalRng => true | _ => false end) P
   end.
 
 (** ** Summaries (same closure, per argument position) *)
@@ -234,24 +283,38 @@ Definition summary_of (S : summaries) (f : func) : option summary :=
   | None => None
   | Some P =>
       let E := edge_list P in
+      let priv := map snd (f_slots f) in
       let cls := map (taint E) (f_formals f) in
       let cl := fun i => nth i cls [] in
+      (* closure of a position without the receiver's private slots: used for [s_mut] *)
+      let clp := fun i => taint E (filter (fun v => negb (mem v priv)) (nth i (f_formals f) [])) in
       let pos := positions cls in
       if forallb (closed E) cls
+         && forallb (fun i => closed E (clp i)) pos
+         && forallb (fun gv => closed E (taint E [snd gv])) (f_slots f)
          && forallb (fun ic => forallb (fun r => mem r (snd ic)) (nth (fst ic) (f_formals f) []))
                     (combine pos cls)
       then Some {|
         s_mut := filter (fun i => existsb (fun st => match st with
-                                                     | Mutate x => mem x (cl i)
+                                                     | Mutate x => mem x (clp i)
                                                      | _ => false end) P) pos;
         s_ret := filter (fun i => mem (f_ret f) (cl i)) pos;
         s_lnk := flat_map (fun i => flat_map (fun j =>
                      if Nat.ltb i j && existsb (fun r => mem r (cl i)) (nth j (f_formals f) [])
                      then [(i, j)] else []) pos) pos;
-        s_rng := existsb (fun st => match st with GlobalRng => true | _ => false end) P;
+        s_rng := existsb (fun st => match st with
+                                    | GlobalRng => true
+                                    | Draw r => mem r (taint E [f_grng f])
+                                    | _ => false end) P;
+        s_drw := filter (fun i => existsb (fun st => match st with
+                                                     | Draw r => mem r (cl i)
+                                                     | _ => false end) P) pos;
         s_sw := flat_map (fun st => match st with
                                     | StateWrite g r =>
                                         map (fun i => (g, i)) (filter (fun i => mem r (cl i)) pos)
+                                    | Mutate x =>
+                                        flat_map (fun gv => if mem x (taint E [snd gv])
+                                                            then [(fst gv, 0)] else []) (f_slots f)
                                     | _ => [] end) P;
         s_sr := flat_map (fun st => match st with
                                     | StateRead g r =>
@@ -273,13 +336,17 @@ Fixpoint summaries_of (S : summaries) (prog : list (fname * func)) : summaries :
       end
   end.
 
-(** per-function policy: (wl, rd) *)
-Definition check_prog (pol : fname -> list sname * list sname) (prog : list (fname * func))
-  : list (fname * bool) :=
-  let S := summaries_of [] prog in
-  map (fun nf => (fst nf, check_fun (fst (pol (fst nf))) (snd (pol (fst nf))) S (snd nf))) prog.
+(** per-function policy: (wl, rd, allow_g) *)
+Definition policy := fname -> list sname * list sname * bool.
 
-(** state slots written anywhere in a program (used to validate the read-only list) *)
+Definition check_named (pol : policy) (S : summaries) (nf : fname * func) : bool :=
+  let '(wl, rd, ag) := pol (fst nf) in check_fun wl rd ag S (snd nf).
+
+Definition check_prog (pol : policy) (prog : list (fname * func)) : list (fname * bool) :=
+  let S := summaries_of [] prog in
+  map (fun nf => (fst nf, check_named pol S nf)) prog.
+
+(** state slots written anywhere in a list of functions (used to validate read-only lists) *)
 Definition written_slots (prog : list (fname * func)) : list sname :=
   flat_map (fun nf => flat_map (fun st => match st with StateWrite g _ => [g] | _ => [] end)
                                (f_body (snd nf))) prog.
